@@ -45,9 +45,13 @@ PROLOG = {"none": "", "xmldecl": '<?xml version="1.0" encoding="UTF-8"?>\n', "co
           "pi": '<?xml-stylesheet href="s.css"?>\n', "doctype": "<!DOCTYPE svg>\n"}
 
 
+ROOTATTRS = {"none": "", "xlink": ' xmlns:xlink="http://www.w3.org/1999/xlink"', "version": ' version="1.1"', "id-class": ' id="top" class="a b"',
+             "custom-ns": ' xmlns:my="urn:example:my" my:note="n"', "xml-space": ' xml:space="preserve" xml:lang="en"'}
+
+
 def root_document(c):
     ns = ' xmlns="http://www.w3.org/2000/svg"' if c["ns"] else ""
-    return PROLOG[c["prolog"]] + f"<svg{ns}>" + "".join(KID[k] for k in c["kids"]) + "</svg>"
+    return PROLOG[c["prolog"]] + f"<svg{ns}{ROOTATTRS[c.get('rootattrs', 'none')]}>" + "".join(KID[k] for k in c["kids"]) + "</svg>"
 
 
 def run(rep, tier, seed):
